@@ -458,7 +458,14 @@ def solve_pareto_front(
     results: list[dict[str, int]] = []
     while opt.check() == z3.sat:
         m = opt.model()
-        results.append(_int_assignment(m))
+        point = _int_assignment(m)
+        if any(
+            all(point.get(v) == seen.get(v) for v in minimize_vars) for seen in results
+        ):
+            # z3 repeats a Pareto point instead of answering unsat (it does so with a
+            # single objective): the front is complete
+            break
+        results.append(point)
         if max_solutions is not None and len(results) >= max_solutions:
             break
 
